@@ -300,3 +300,90 @@ def run(ctx, rep):
     # per-disk verdict flags of the engines must not depend on the disks delivered before (reader completion order)
     from .carried import carried_flags_rule
     carried_flags_rule(P, rep, 'R-C13-9')
+    worker_list_width_rule(P, rep, 'R-C13-10')
+    from .C08 import writer_error_counted_rule
+    writer_error_counted_rule(P, rep, 'R-C13-11')
+    scan_thread_shared_set_rule(P, rep, 'R-C13-12')
+
+
+def scan_thread_shared_set_rule(P, rep, rid):
+    """state_diffscan runs one scan thread per disk.  Whatever a thread reads of ANOTHER disk during that phase must not be something
+    the other disk's thread changes in the same phase, or the result depends on which thread runs first -- with every single access
+    properly locked.  Found from the code: the functions reachable from the thread entry, the per-disk hash sets (members of
+    snapraid_disk given to tommy_hashdyn_*) they modify, and the lookups of the same member made on a disk taken from the list
+    of all disks (node->data of state->disklist) rather than on the thread's own disk."""
+    rep.rule(rid, 'scan threads: no per-disk set that the scan threads modify (tommy_hashdyn insert / remove) is looked up on the OTHER disks (a disk obtained from state->disklist) inside the threaded phase', 1)
+    sd = P.fn('state_diffscan')
+    rep.analysed(sd)
+    entries = set()
+    for c in sd.calls('thread_create'):
+        for o in c.ops:
+            so = sd.strip(o)
+            if so[0] == 'f' and so[1] in P.functions:
+                entries.add(so[1])
+    if not entries:
+        raise AnalysisBroken('state_diffscan: the scan thread entry was not found')
+    R = P.reachable(entries)
+    MUT = {'tommy_hashdyn_insert', 'tommy_hashdyn_remove', 'tommy_hashdyn_remove_existing'}
+    LOOK = {'tommy_hashdyn_search'}
+    muts = {}; looks = {}
+    for name in R:
+        g = P.functions.get(name)
+        if g is None or g.decl:
+            continue
+        for c in g.calls(MUT | LOOK):
+            e = g.xexpr(c.ops[0])
+            m = re.match(r'^&?\(?\*?([\w.>-]+?)\)?->(\w+)$', e.strip('()&').join(['', '']) if False else e)
+            mm = re.search(r'->(\w+)\)?$', e)
+            if not mm:
+                continue
+            member = mm.group(1)
+            if c.callee in MUT:
+                muts.setdefault(member, []).append((g, c))
+            else:
+                # whose set?  the disk pointer behind the first argument
+                gi = g.inst_of(c.ops[0])
+                src = g.value_sources(gi.ops[0]) if gi is not None and gi.op == 'getelementptr' else []
+                cross = any(x[0] == 'mem' and x[1].endswith('->data') for x in src) and any('->disklist' in g.expr(['i', i.id]) for i in g.all_insts() if i.op == 'load')
+                if cross:
+                    looks.setdefault(member, []).append((g, c))
+    if not muts:
+        raise AnalysisBroken('scan threads: no per-disk set modified in the threaded phase was recognised')
+    shared = sorted(set(muts) & set(looks))
+    for g in {x[0] for v in list(muts.values()) + list(looks.values()) for x in v}:
+        rep.analysed(g)
+    if shared:
+        m_ = shared[0]
+        g, c = looks[m_][0]
+        rep.fail(rid, 'per-disk set `%s`' % m_, c.loc(), 'every scan thread looks `%s` up on all the disks of the array (%s, line %s) while the thread of each disk removes and inserts entries in it (%s): the answer depends on which thread runs first -- a file copied from a disk whose old version is being replaced is a "copy" (hashes inherited, REP blocks) or an "add" for the same input' % (
+            m_, base(g.name), c.line, ', '.join(sorted({'%s:%s' % (base(x[0].name), x[1].line) for x in muts[m_]}))), function=base(g.name), construct='%s looked up across disks in the threaded phase' % m_)
+    else:
+        rep.ok(rid, 'sets modified by the scan threads (%s) are not looked up across disks' % sorted(muts))
+
+
+TYPE_BITS = {'unsigned char': 8, 'char': 8, 'signed char': 8, 'unsigned short': 16, 'short': 16, 'unsigned int': 32, 'int': 32, 'unsigned': 32,
+             'unsigned long': 64, 'long': 64, 'unsigned long long': 64, 'long long': 64, 'size_t': 64, 'uint8_t': 8, 'uint16_t': 16, 'uint32_t': 32, 'uint64_t': 64}
+
+
+def worker_list_width_rule(P, rep, rid):
+    """the ring engine links the workers still to be waited for through io->reader_list / io->writer_list: element k holds a worker
+    number, element 0 the number of workers itself (reader_max = data disks + parities, up to 251 + 6).  An element type narrower
+    than the counter truncates 256 to 0: with 250 data disks and 6 parities scrub aborts (assertion) in the threaded engine only,
+    the single-thread engine works.  Rule: the element type of each list is at least as wide as the type of the count."""
+    rep.rule(rid, 'io ring: the element type of reader_list / writer_list is as wide as reader_max / writer_max (a worker number or the count itself is never truncated)', 2)
+    d = P.distructs.get('snapraid_io')
+    if not d:
+        raise AnalysisBroken('struct snapraid_io not found')
+    mem = {m['name']: m for m in d['members']}
+    f = P.fn('io_init')
+    rep.analysed(f)
+    for lst, cnt in (('reader_list', 'reader_max'), ('writer_list', 'writer_max')):
+        if lst not in mem or cnt not in mem:
+            raise AnalysisBroken('snapraid_io.%s / %s not found' % (lst, cnt))
+        et = (mem[lst].get('ty') or '').replace('*', '').replace('const', '').strip()
+        eb = TYPE_BITS.get(et); cb = mem[cnt].get('bits')
+        if eb is None or not cb or not (mem[lst].get('ty') or '').strip().endswith('*'):
+            raise AnalysisBroken('snapraid_io.%s: element type %r not understood' % (lst, mem[lst].get('ty')))
+        rep.check(eb >= cb, rid, 'io->%s holds values up to io->%s' % (lst, cnt), f.file,
+                  '%d-bit elements for a %d-bit count' % (eb, cb) if eb >= cb else 'elements of type %s (%d bits) hold worker numbers and the count io->%s (%d bits): 256 workers (250 data disks + 6 parities, a supported array) wrap to 0, the list is corrupted and the threaded engine aborts where the single-thread engine works' % (et, eb, cnt, cb),
+                  function='io_init', construct='%s element width' % lst)
